@@ -58,12 +58,18 @@ def showVal : PyVal → String
   | .bytes s => "b" ++ encStr s
   | .list xs => "L" ++ toString xs.length ++ showValL xs
   | .tuple xs => "U" ++ toString xs.length ++ showValL xs
-  | .set xs => "S" ++ toString xs.length ++ showValL xs
-  | .frozenset xs => "Z" ++ toString xs.length ++ showValL xs
+  | .set xs => "S" ++ toString xs.length ++ showValS xs
+  | .frozenset xs => "Z" ++ toString xs.length ++ showValS xs
   | .dict kvs => "D" ++ toString kvs.length ++ showValP kvs
 def showValL : List PyVal → String
   | [] => ""
   | x :: xs => " " ++ showVal x ++ showValL xs
+/-- set members in canonical (sorted by rendering) order -/
+def showValS (xs : List PyVal) : String :=
+  String.join ((Wire.sortStrings (showValList xs)).map (" " ++ ·))
+def showValList : List PyVal → List String
+  | [] => []
+  | x :: xs => showVal x :: showValList xs
 def showValP : List (PyVal × PyVal) → String
   | [] => ""
   | (k, v) :: xs => " " ++ showVal k ++ " " ++ showVal v ++ showValP xs
